@@ -24,7 +24,7 @@ TRUSTED = ["strace fault injection: the signal is delivered when the N-th traced
            "file system semantics of regular files as modelled in Model/Disk.v"]
 SHARDS = 16
 
-VALS = ["", "1", "x y", "ü ñ", "v" * 100, "w" * 240, "é" * 130, "z" * 600]
+VALS = ["", "1", "x y", "ü ñ", "v" * 100, "w" * 240, "é" * 130, "ы" * 123 + "z", "z" * 600]
 
 
 def impl_runner(cases, ctx, rundir):
@@ -78,7 +78,7 @@ def gen_cases(tier, seed):
         cases.append(("f%d" % i, hdr, build(ar, bm, bs, two)))
         dist["fixed"] += 1
     nrand = {"quick": 40, "thorough": 600, "search": 24}[tier]
-    keys = ["a", "b", "c", "dd"]
+    keys = ["a", "ключ", "c", "dd", "éé"]
 
     def mut():
         r = rng.random()
